@@ -22,7 +22,7 @@ def need(fx, fid):
 
 def run(ctx):
     fx = ctx.facts("default")
-    fixtures.run(ctx, ['atom', 'lockcov', 'commit'])
+    fixtures.run(ctx, ['atom', 'lockcov', 'commit', 'countrmw'])
     # clause 1: check-then-act on atomics anywhere in the two files
     n = 0
     nat = 0
@@ -47,6 +47,9 @@ def run(ctx):
     ws = [s for s in sync.atomic_sites(w) if s[2] and s[2].endswith("::active_writers")]
     ctx.instance("R-ATOM.writer_sites", len(ws))
     ctx.floor("R-ATOM.writer_sites", 1)
+    # the live-token counters move by +1 / -1 only: no plain store or swap outside the constructor
+    sync.counter_only_rmw(ctx, fx, VS, "fsa::version_sync::VersionManager", ["active_readers", "active_writers"])
+    ctx.floor("R-COUNT.rmw.rmw_sites", 4)
     # clause 2: one critical section
     k = 0
     r = need(fx, VM + "acquire_reader_token")
@@ -90,7 +93,9 @@ def run(ctx):
         explanation="R-ATOM: load->branch->RMW on the same atomic without a common live lock guard, over every function "
                     "of version_sync.rs/token.rs. R-LOCKCOV: named atomic operations must execute while a guard of "
                     "token_chain_mutex is live (guard liveness from MIR def to Drop/StorageDead/move). R-OWN: raw owner "
-                    "pointer in a guard without lifetime or strong reference, plus compile-fail witnesses with twins.",
+                    "pointer in a guard without lifetime or strong reference, plus compile-fail witnesses with twins. R-COUNT.rmw: "
+                    "VersionManager.active_readers/active_writers are changed only by fetch_add/fetch_sub/compare_exchange - never by a "
+                    "plain store or swap outside the constructor.",
         trusted_base=["rustc nightly (borrow checker for witnesses, MIR)", "zfacts", "rules/sync.py", "rules/own.py"],
         rule_text="obligation = atomic check-then-act pair | (atomic op, required lock) | guard/owner pair | witness",
     )
